@@ -230,6 +230,24 @@ def enum_algebra(seed):
         want = {norm("/new/root/" + p.lstrip("/")) for p in A}
         if {x.location for x in moved} != want:
             bad({"A": sorted(A)}, f"change_offset('/', '/new/root') gave {sorted(x.location for x in moved)}")
+        # ... from a prefix to another one, every spelling of the two offsets; type and attributes of every entry are kept
+        for old, new in (("/new/root", "/"), ("/new/root/", "/"), ("/new/root", "/other"), ("/new/root/", "/other/"), ("/new/root", "/other//deep"), ("/new", "/new/root/x")):
+            cases += 1
+            try:
+                back = moved.change_offset(old, new)
+            except Exception as e:
+                bad({"A": sorted(A), "old": old, "new": new}, f"change_offset({old!r}, {new!r}) raised {e!r}")
+                continue
+            o = old.rstrip("/")
+            wantb = {"/" + "/".join(c for c in (new + "/" + x.location[len(o):]).split("/") if c): x for x in moved}
+            gotb = {x.location: x for x in back}
+            if set(gotb) != set(wantb):
+                bad({"A": sorted(A), "old": old, "new": new}, f"change_offset({old!r}, {new!r}) on {sorted(x.location for x in moved)} gave {sorted(gotb)}, replacing the prefix gives {sorted(wantb)}")
+            else:
+                for loc, x in gotb.items():
+                    y = wantb[loc]
+                    if type(x) is not type(y) or any(getattr(x, a_, None) != getattr(y, a_, None) for a_ in ("mode", "uid", "gid", "mtime")):
+                        bad({"A": sorted(A), "old": old, "new": new}, f"change_offset({old!r}, {new!r}) changed more than the location of {y!r}: {x!r}")
         # completing missing directories: exactly the absent ancestors, existing entries untouched
         cases += 1
         s = contentsSet(A.values())
@@ -250,7 +268,7 @@ def enum_algebra(seed):
         for p in set(after) - set(before):
             if not after[p].is_dir:
                 bad({"A": sorted(A)}, f"added {p} is not a directory")
-    return {"name": "C22.set_algebra.bounded_enumeration", "bound": "300 random pairs of sets over 5 nested paths, arguments as set / unnormalized path strings / entry lists; relocation; missing-directory completion",
+    return {"name": "C22.set_algebra.bounded_enumeration", "bound": "300 random pairs of sets over 5 nested paths, arguments as set / unnormalized path strings / entry lists; relocation from / to a prefix and from that prefix to 6 other offsets (trailing and doubled slashes, nested); missing-directory completion",
             "cases": cases, "failures": fails}
 
 
